@@ -206,26 +206,37 @@ class Env:
             if not self._mentions(f[1]) <= defined or len(self.aux) > naux or _has_wrapper(f[1]):
                 src = repr(src)
             fields.append((f[0], src, f[2], f[1]))
-
-        def dflt(T):
-            return "None" if _accepts_none(T) else None
+        # a 4th component of a field is the source text of its (non-None) default
+        dsrc = {f[0]: (f[3] if len(f) > 3 else ("7" if f[1]["k"] == "classvar" else "None")) for f in d["fields"]}
+        # a class with a base of the table only declares the fields its base does not have
+        base = d.get("base")
+        bases = f"({self.defs[base].get('py', base)})" if base else ""
+        if base:
+            inherited = {f[0] for f in self.defs[base]["fields"]}
+            fields = [f for f in fields if f[0] not in inherited]
         lines = []
         if fl in ("dataclass", "dc_slots", "dc_kwonly", "dc_frozen"):
             opts = {"dataclass": "", "dc_slots": "slots=True", "dc_kwonly": "kw_only=True", "dc_frozen": "frozen=True"}[fl]
             lines.append(f"@dataclasses.dataclass({opts})")
-            lines.append(f"class {name}:")
+            lines.append(f"class {name}{bases}:")
             for fn, src, has_d, T in fields:
-                lines.append(f"    {fn}: {src}" + ((" = 7" if T["k"] == "classvar" else " = None") if has_d else ""))
+                lines.append(f"    {fn}: {src}" + (f" = {dsrc[fn]}" if has_d else ""))
         elif fl == "namedtuple":
             lines.append(f"class {name}(typing.NamedTuple):")
             for fn, src, has_d, T in fields:
-                lines.append(f"    {fn}: {src}" + (" = None" if has_d else ""))
-        elif fl in ("typeddict", "typeddict_nr"):
-            lines.append(f"class {name}(typing.TypedDict):")
+                lines.append(f"    {fn}: {src}" + (f" = {dsrc[fn]}" if has_d else ""))
+        elif fl in ("typeddict", "typeddict_nr", "typeddict_te"):
+            lines.append(f"class {name}({'typing_extensions' if fl == 'typeddict_te' else 'typing'}.TypedDict):")
             for i, (fn, src, has_d, T) in enumerate(fields):
                 if fl == "typeddict_nr" and has_d:
                     src = f"typing.NotRequired[{src}]"     # src may itself be a quoted forward reference
                 lines.append(f"    {fn}: {src}")
+        elif fl == "typeddict_inh2":
+            # a total body on top of a total=False base: the base's keys stay optional
+            lines.append(f"class {name}_base(typing.TypedDict, total=False):")
+            lines += [f"    {fn}: {src}" for fn, src, has_d, T in fields if has_d] or ["    pass"]
+            lines.append(f"class {name}({name}_base):")
+            lines += [f"    {fn}: {src}" for fn, src, has_d, T in fields if not has_d] or ["    pass"]
         elif fl == "typeddict_inh":
             # a total=False body on top of a total base: the base's keys stay required
             lines.append(f"class {name}_base(typing.TypedDict):")
@@ -261,7 +272,7 @@ class Env:
             raise ValueError(fl)
         if len(lines) == 2 and lines[-1].endswith(":"):
             lines.append("    pass")
-        if not fields and fl in ("dataclass", "dc_slots", "dc_kwonly", "dc_frozen", "namedtuple", "typeddict", "typeddict_nr"):
+        if not fields and fl in ("dataclass", "dc_slots", "dc_kwonly", "dc_frozen", "namedtuple", "typeddict", "typeddict_nr", "typeddict_te"):
             lines.append("    pass")
         return "\n".join(lines)
 
@@ -274,7 +285,8 @@ class Env:
             bodies[d["module"]].append(self._class_src(d.get("py", name), d, frozenset(defined[d["module"]])))
             defined[d["module"]].add(name)
         root_src = self.render(root, root_home) if root is not None else None
-        header = ("import datetime as dt\nimport collections, collections.abc, dataclasses, datetime, decimal, enum, fractions, pathlib, re, typing, uuid\n")
+        header = ("import datetime as dt\nimport collections, collections.abc, dataclasses, datetime, decimal, enum, fractions, pathlib, re, typing, uuid\n"
+                  "import typing_extensions\n")
         # create empty modules first so that cross-module references resolve lazily via attribute access
         for m in mods:
             mod = types.ModuleType(self.modname(m))
@@ -483,7 +495,7 @@ def class_values(name, env: Env, rng, n, depth):
     if depth > 3:
         # cut recursion: only possible if every field can be omitted / None
         fields = {}
-        for fn, T, has_d in d["fields"]:
+        for fn, T, has_d, *_ in d["fields"]:
             if T["k"] == "classvar":
                 continue
             if has_d or _accepts_none(T):
@@ -498,7 +510,7 @@ def class_values(name, env: Env, rng, n, depth):
                 return []
         return [_construct(C, d, fields)]
     cols = {}
-    for fn, T, has_d in d["fields"]:
+    for fn, T, has_d, *_ in d["fields"]:
         if T["k"] == "classvar":
             continue
         vs = values(T, env, rng, 2, depth + 1)
@@ -509,6 +521,10 @@ def class_values(name, env: Env, rng, n, depth):
     for i in range(min(n, 2)):
         fields = {fn: vs[min(i, len(vs) - 1) if i == 0 else -1] for fn, vs in cols.items()}
         outs.append(_construct(C, d, fields))
+    optional = [f[0] for f in d["fields"] if f[2]]
+    if d["flavour"].startswith("typeddict") and d["flavour"] != "typeddict" and optional and n > 2:
+        # a TypedDict value that leaves its optional keys out
+        outs.append({k: v for k, v in outs[0].items() if k not in optional})
     return outs
 
 
